@@ -24,6 +24,7 @@ pub fn run(ctx: &Ctx) -> i32 {
         cfg.max_h = 16;
         cfg.max_cel = 10;
         cfg.big = true;
+        cfg.flat = true;
         cfg.max_layers = 6;
         cfg.max_frames = 4;
         cfg.extremes = i % 4 == 0;
